@@ -104,17 +104,17 @@ pub fn peek<const K: u8, RS: ResourceState<Res<K>>>(r: &Res<K>, state: &mut RS) 
 // ------------------------------------------------------------------------------------------------ resource checkers
 
 #[derive(Clone, Copy, PartialEq, Eq, Hash, Debug)]
-pub enum RChk { Eq, Ex, Par, Any, EqF }
+pub enum RChk { Eq, Ex, Par, Any, EqF, Near }
 
 impl RChk {
   pub fn from_id(c: &str) -> RChk {
     match c {
-      "eq" => RChk::Eq, "ex" => RChk::Ex, "par" => RChk::Par, "any" => RChk::Any, "eqF" => RChk::EqF,
+      "eq" => RChk::Eq, "ex" => RChk::Ex, "par" => RChk::Par, "any" => RChk::Any, "eqF" => RChk::EqF, "near" => RChk::Near,
       _ => panic!("harness: unknown resource checker {}", c),
     }
   }
   pub fn id(&self) -> &'static str {
-    match self { RChk::Eq => "eq", RChk::Ex => "ex", RChk::Par => "par", RChk::Any => "any", RChk::EqF => "eqF" }
+    match self { RChk::Eq => "eq", RChk::Ex => "ex", RChk::Par => "par", RChk::Any => "any", RChk::EqF => "eqF", RChk::Near => "near" }
   }
 }
 
@@ -145,7 +145,7 @@ impl<const K: u8> ResourceChecker<Res<K>> for RChk {
       return Err(ChkErr(format!("fault on resource {}", rid)));
     }
     let cur = rstamp(self.id(), peek(resource, state));
-    let inc = cur != *stamp;
+    let inc = rinc(self.id(), peek(resource, state), *stamp);
     emit(json!({"ev":"check","c":self.id(),"r":rid,"s":stamp,"res": if inc { "inc" } else { "ok" }}));
     Ok(if inc { Some(cur) } else { None })
   }
@@ -198,11 +198,11 @@ fn interp<C: Context>(k: u8, n: u32, ctx: &mut C) -> Out {
       "rd" => {
         let chk = RChk::from_id(&op.c);
         let v = read_res(ctx, &scn, op.x, chk);
-        acc = mix(acc, rstamp(&op.c, v), scn.na);
+        acc = mix(acc, robs(&op.c, v), scn.na);
       }
       "rq" => {
         let o = require_task(ctx, &scn, op.x, &op.c);
-        acc = mix(acc, ostamp(&op.c, enc_out(&o)), scn.na);
+        acc = mix(acc, oobs(&op.c, enc_out(&o)), scn.na);
       }
       "wr" => {
         let chk = RChk::from_id(&op.c);
@@ -254,6 +254,32 @@ fn write_res<C: Context>(ctx: &mut C, scn: &Scenario, r: i64, chk: RChk, v: i64,
   }
 }
 
+/// User-defined output checker that tolerates a distance of one between the encoded outputs (not an equivalence).
+#[derive(Clone, Copy, PartialEq, Eq, Hash, Debug)]
+pub struct NearOut;
+impl pie::OutputChecker<Out> for NearOut {
+  type Stamp = i64;
+  fn stamp(&self, output: &Out) -> i64 { enc_out(output) }
+  fn check(&self, output: &Out, stamp: &i64) -> Option<impl Debug> {
+    let o = enc_out(output);
+    if (o - *stamp).abs() > 1 { Some(o) } else { None }
+  }
+}
+
+/// Zero-sized task types: every value of such a type has the same (dangling) address and an empty hash.
+#[derive(Clone, Copy, PartialEq, Eq, Hash, Debug)]
+pub struct ZA;
+#[derive(Clone, Copy, PartialEq, Eq, Hash, Debug)]
+pub struct ZB;
+impl Task for ZA {
+  type Output = Out;
+  fn execute<C: Context>(&self, context: &mut C) -> Out { interp(5, 0, context) }
+}
+impl Task for ZB {
+  type Output = Out;
+  fn execute<C: Context>(&self, context: &mut C) -> Out { interp(6, 0, context) }
+}
+
 /// Anything that can require a task: a task context or a session.
 pub trait Requirer {
   fn req<T: Task<Output=Out>>(&mut self, task: &T, c: &str) -> Out;
@@ -267,6 +293,7 @@ impl<C: Context> Requirer for CtxReq<'_, C> {
       "erreq" => self.0.require(task, ErrEqualsChecker),
       "res" => self.0.require(task, ResultChecker),
       "any" => self.0.require(task, AlwaysConsistent),
+      "near" => self.0.require(task, NearOut),
       _ => panic!("harness: unknown output checker {}", c),
     }
   }
@@ -285,6 +312,8 @@ pub fn require_abs<R: Requirer>(rq: &mut R, scn: &Scenario, t: i64, c: &str) -> 
     2 => rq.req(&Box::new(Tk::<0>(num)), c),
     3 => rq.req(&Rc::new(Tk::<0>(num)), c),
     4 => rq.req(&Arc::new(Tk::<0>(num)), c),
+    5 => rq.req(&ZA, c),
+    6 => rq.req(&ZB, c),
     _ => panic!("harness: unknown task type"),
   }
 }
@@ -302,6 +331,8 @@ pub fn task_id_of(ty: TypeId, num: u32) -> Option<i64> {
     else if ty == TypeId::of::<Box<Tk<0>>>() { 2 }
     else if ty == TypeId::of::<Rc<Tk<0>>>() { 3 }
     else if ty == TypeId::of::<Arc<Tk<0>>>() { 4 }
+    else if ty == TypeId::of::<ZA>() { 5 }
+    else if ty == TypeId::of::<ZB>() { 6 }
     else { return None };
   world::scn().task_id(k, num)
 }
@@ -335,7 +366,7 @@ pub fn parse_val(s: &str) -> i64 {
 /// Abstract id of the debug text of a checker.
 pub fn parse_chk(s: &str) -> &'static str {
   match s.trim() {
-    "Eq" => "eq", "Ex" => "ex", "Par" => "par", "Any" => "any", "EqF" => "eqF",
+    "Eq" => "eq", "Ex" => "ex", "Par" => "par", "Any" => "any", "EqF" => "eqF", "Near" => "near", "NearOut" => "near",
     "EqualsChecker" => "eq", "OkEqualsChecker" => "okeq", "ErrEqualsChecker" => "erreq", "ResultChecker" => "res",
     "AlwaysConsistent" => "any",
     _ => "?",
